@@ -8,7 +8,7 @@
    partial). *)
 From Coq Require Import List Arith ZArith Bool Lia.
 Import ListNotations.
-From GG Require Import Text Json Text_proofs Sdl Sdl_proofs Json_proofs Json_value.
+From GG Require Import Text Json Text_proofs Sdl Sdl_proofs Json_proofs Json_value Tokens_proofs.
 
 (* names (symbols, variable names, unquoted keys) are exactly the non-empty words over [A-Za-z0-9_];
    number tokens are words over [0-9+-.eE]; the string delimiters and NUL are in no class; comma is
@@ -86,6 +86,39 @@ Example C18_number_token_instances :
   (forallb json_num_token [[48]; [45; 49; 50]; [49; 46; 53]; [49; 101; 43; 48; 54]; [49; 46; 53; 101; 45; 48; 55]; [45; 48; 46; 53]] = true) /\
   (existsb json_num_token [[78; 97; 78]; [43; 73; 110; 102]; [48; 49]; [49; 46]; [50; 101; 43; 48; 54; 46; 48]] = false).
 Proof. split; vm_compute; reflexivity. Qed.
+
+(* The word-level half of the SDL round trip, for words of any length: a name - enum symbol, variable
+   name, unquoted object key, null/true/false - written as it is and followed by any byte outside
+   [A-Za-z0-9_] (a space, comma, bracket, colon, quote ...) is returned whole by readToken, which skips
+   nothing and leaves the scanner in front of that byte; likewise a number token and readNumberToken. *)
+Theorem C18_name_token_round_trip :
+  forall (w : list byte) s b0 k fuel,
+    w <> [] -> Forall (fun b => is_token b = true) w -> is_token b0 = false -> b0 <> 0 ->
+    ready s (w ++ b0 :: k) -> length w < fuel ->
+    exists s', read_token fuel s = ROk w s' /\ ready s' (b0 :: k).
+Proof. exact read_token_written. Qed.
+Print Assumptions C18_name_token_round_trip.
+
+Theorem C18_number_token_round_trip :
+  forall (w : list byte) s b0 k fuel,
+    Forall (fun b => is_num b = true) w -> is_num b0 = false -> b0 <> 0 ->
+    ready s (w ++ b0 :: k) -> length w < fuel ->
+    exists s', read_number_token fuel s = ROk w s' /\ ready s' (b0 :: k).
+Proof. exact read_number_token_written. Qed.
+Print Assumptions C18_number_token_round_trip.
+
+Example C18_token_round_trip_premises :
+  (* RED_1 followed by ']' and -1.5e+07 followed by ',' at the start of a text meet the premises *)
+  let s0 l := mkP l false 0 false 0 0 in
+  (Forall (fun b => is_token b = true) [82; 69; 68; 95; 49] /\ is_token 93 = false /\ ready (s0 ([82; 69; 68; 95; 49] ++ [93])) ([82; 69; 68; 95; 49] ++ [93])) /\
+  (Forall (fun b => is_num b = true) [45; 49; 46; 53; 101; 43; 48; 55] /\ is_num 44 = false) /\
+  (exists s', read_token 6 (s0 ([82; 69; 68; 95; 49] ++ [93])) = ROk [82; 69; 68; 95; 49] s').
+Proof.
+  cbv zeta. split; [|split].
+  - split; [repeat constructor|split; [reflexivity|split; reflexivity]].
+  - split; [repeat constructor|reflexivity].
+  - eexists. vm_compute. reflexivity.
+Qed.
 
 (* The same constant is read back rune for rune by ggql's own reader (proved for C15). *)
 Theorem C18_string_constant_round_trip :
